@@ -2,7 +2,7 @@
    Only ExtrOcamlBasic is used: N / Z / positive / nat stay the extracted inductive
    datatypes (no Extract Constant to OCaml int). *)
 From Coq Require Import Extraction ExtrOcamlBasic.
-From StgV Require Import Model.Chars Model.Name Model.NameSpec Model.Locator Model.Stack Model.Cmd.
+From StgV Require Import Model.Chars Model.Name Model.NameSpec Model.Locator Model.Stack Model.Cmd Model.Protocol.
 
 Extraction Language OCaml.
 Extraction "../ocaml/model.ml"
@@ -12,4 +12,6 @@ Extraction "../ocaml/model.ml"
   Locator.parse_locator Locator.parse_range Locator.offsets_full Locator.offset_atoms
   Locator.display_loc Locator.display_range Locator.resolve_name Locator.resolve_names
   Locator.resolve_names_contiguous Locator.dec_of_Z
-  Cmd.step Cmd.init_world Stack.cur_state.
+  Cmd.step Cmd.init_world Stack.cur_state
+  Protocol.fault_at Protocol.crash_at Protocol.crash_in_edit Protocol.sigint_at Protocol.world_at
+  Protocol.plan_edits Protocol.commit_order Protocol.run2.
